@@ -260,6 +260,10 @@ structure GoQueue where
 instance : GoZero GoQueue := ⟨{}⟩
 instance : GoLen GoQueue := ⟨fun q => (q.items.length : Int)⟩
 
+/-- `make(chan *bytes.Buffer, n)` does not panic: the runtime refuses a negative size and one whose buffer (8 bytes per
+    element on linux/amd64) would exceed the address space: `8·n > 2^48 − 96` -/
+def goMakeChanOk (n : Int) : Bool := decide (0 ≤ n ∧ n ≤ 35184372088820)
+
 /-- a send would not block -/
 def GoQueue.hasRoom (q : GoQueue) : Bool := decide ((q.items.length : Int) < q.cap)
 /-- a receive would not block -/
